@@ -208,6 +208,15 @@ def run_plain(case, V, C):
         # the tails of the domain, where softplus is within round-off of 0 (x << 0) or of x (x >> 0): element-wise and
         # well conditioned in both directions, so the round trip must still return the input
         x = torch.tensor(np.clip(rng.normal(0, 25.0, shape), -60.0, 60.0))
+        if rng.random() < 0.4:
+            # values of the size of a population size or a date (hundreds): exp(x) does not fit a double, softplus(x) = x does
+            x = torch.tensor(rng.uniform(100.0, 900.0, shape))
+        C["tail_points"] = C.get("tail_points", 0) + 1
+    if kind == "CumSumSoftPlus" and rng.random() < 0.3:
+        # a first element far out on either side: the running sum stays there (softplus of it is within round-off of 0 or of the sum)
+        xn = rng.normal(0, 3.0, shape)
+        xn[..., 0] = rng.uniform(-45.0, 900.0, xn[..., 0].shape)
+        x = torch.tensor(xn)
         C["tail_points"] = C.get("tail_points", 0) + 1
     if kind == "AffineParam":
         # AffineTransform whose loc is a Parameter object (what the CLI emits for origin = root_height + delta)
@@ -223,10 +232,10 @@ def run_plain(case, V, C):
     if case["route"] == "direct":
         inv_tol = None
         if kind == "CumSumSoftPlus":
-            # the forward map evaluates log(exp(c) + 1): the addition loses eps absolutely, which the inverse
-            # log(expm1(y)) amplifies by 1/y ~ exp(-c); each x is a difference of two adjacent such terms
-            c = x.cumsum(-1).numpy()
-            e = 16 * 2.2e-16 * (np.exp(-c) + 1.0)
+            # each x is recovered as a difference of two adjacent running sums: round-off of the sums, not of x
+            c = np.abs(x.cumsum(-1).numpy())
+            # (+ torch's softplus threshold: beyond 20 the forward map returns the sum itself, exp(-20) = 2.1e-9 away from softplus)
+            e = 16 * 2.2e-16 * (c + 1.0) + 2.1e-9 * (c > 20)
             e = e + np.concatenate([np.zeros_like(e[..., :1]), e[..., :-1]], -1)
             inv_tol = 1e-9 * np.maximum(1.0, np.abs(x.numpy())) + e
         _compare(V, C, kind, tr, x, stick=stick, elementwise=elementwise, inv_tol=inv_tol)
